@@ -67,11 +67,17 @@ func (v *notation_) GetClass() col.NotationClassLike {
 // Canonical
 
 func (v *notation_) FormatValue(value any) (source string) {
-	source = v.formatter_.FormatValue(value)
+	// NOTE: A notation is shared by every collection of a class (and may be
+	// shared by goroutines), so each call works with its own formatter.
+	var formatter = Formatter().MakeWithMaximum(v.formatter_.GetMaximum())
+	source = formatter.FormatValue(value)
 	return source
 }
 
 func (v *notation_) ParseSource(source string) (value any) {
-	value = v.parser_.ParseSource(source)
+	// NOTE: A notation is shared by every collection of a class (and may be
+	// shared by goroutines), so each call works with its own parser.
+	var parser = Parser().Make()
+	value = parser.ParseSource(source)
 	return value
 }
